@@ -1089,10 +1089,21 @@ func randOp(r *hx.Rng, st Stack) Op {
 			n = 1
 		}
 
+		// wave 5: long batches (longer than every finite batch limit but 100) that keep coming back to ONE key:
+		// put / delete / put of one key inside a batch, the last operation on the key wins
+		hot := 0
+		if r.Intn(4) == 0 {
+			n, hot = 4+r.Intn(4), 1+r.Intn(3)
+		}
+
 		b := make([]BOp, n)
 
 		for i := range b {
 			b[i] = BOp{K: 1 + r.Intn(3)}
+			if hot > 0 && r.Intn(3) > 0 {
+				b[i].K = hot
+			}
+
 			if r.Intn(3) > 0 {
 				b[i].V = 1 + r.Intn(3)
 				if r.Intn(8) == 0 {
@@ -1378,5 +1389,29 @@ func main() {
 			r := rng.Fork(uint64(5_000_000 + i*1000 + j))
 			runCase("random-leveldb", randomCase(r, st, 4+r.Intn(16)), tr, true)
 		}
+	}
+
+	// wave 5: depth-3 stacks over LevelDB (any_stack_over_leveldb speaks about every depth): a seeded selection of the
+	// 7^3 stacks of caching / batching / deterministic-key formatting layers, and of those with a random-key layer
+	deep := stacks([]string{"leveldb"}, 3, []string{"noop", "b64det"})
+	deepR := stacks([]string{"leveldb"}, 3, []string{"b64det", "b64rand"})
+	nDeep := 16
+	if thorough {
+		nDeep = 120
+	}
+
+	for j := 0; j < nDeep; j++ {
+		r := rng.Fork(uint64(6_000_000 + j))
+		pool := deep
+		if j%4 == 3 {
+			pool = deepR
+		}
+
+		st := pool[r.Intn(len(pool))]
+		for len(st.Wraps) < 3 {
+			st = pool[r.Intn(len(pool))]
+		}
+
+		runCase("random-leveldb-deep", randomCase(r, st, 4+r.Intn(16)), tr, true)
 	}
 }
